@@ -200,3 +200,20 @@ Proof.
       rewrite Hq. cbn [bind]. rewrite (IH subs rs' Hrest) by (simpl in Hlen; congruence). reflexivity. }
   rewrite Hparts. reflexivity.
 Qed.
+
+(* ---------- tree_map with a tree-valued function ---------- *)
+Theorem map_tree_valued c f t ls sp rs f2 :
+  c_pred c = None -> wf_obj t = true -> flatten c t = Ok (ls, sp) ->
+  (forall x, wf_obj (f x) = true) ->
+  Forall2 (fun x r => tflat c f2 (f x) = Ok r) ls rs ->
+  exists o' tt t' b, tree_map c (lift f) t [] = Ok o' /\ wf_obj o' = true /\ decode (trav sp) = Some tt /\
+    Subst tt (map r_t rs) t' /\
+    tflat c (S (c_limit c) + f2) o' = Ok (concat (map r_l rs), t', b || existsb r_b rs).
+Proof.
+  intros Hp W F Hwf HF.
+  destruct (unflatten_trees_then_flatten c t ls sp (map f ls) rs f2 Hp W F) as (o' & tt & t' & b & Hd & Hu & Wo & HS & HT).
+  - apply map_length.
+  - clear - HF. induction HF; simpl; constructor; assumption.
+  - apply forallb_forall. intros y Hy. apply in_map_iff in Hy as (x & <- & _). apply Hwf.
+  - exists o', tt, t', b. rewrite (map_single c f t ls sp F). auto.
+Qed.
